@@ -13,6 +13,10 @@ type Part struct {
 	O    int
 	RT   *RT
 	Fail bool
+	// Supply (post-processors): the name of a component for which this participant answers the
+	// component itself from before-instantiation (the container short-cuts its creation and runs
+	// the after-initialization callbacks of the whole chain over it)
+	Supply string
 }
 
 func (p *Part) Naming() string { return p.Nm }
@@ -115,6 +119,9 @@ type procBase struct {
 func (p *procBase) PostProcessBeforeInstantiation(m *cd.Meta, name string) (any, error) {
 	if NodeOf(m.Raw) != nil {
 		p.RT.Event("binst:" + p.Nm + ":" + name)
+	}
+	if p.Supply != "" && name == p.Supply {
+		return m.Raw, nil
 	}
 	return nil, nil
 }
